@@ -252,7 +252,7 @@ class EventPart:
             for tok in l.split("|")[1].replace("(", " ").replace(")", " ").split():
                 if tok.isalpha():
                     hist[tok] = hist.get(tok, 0) + 1
-            if "!!root" in a or "!!completion" in a or "!!leak" in a or "!!tvleak" in a or "!!cbreg" in a:
+            if "!!root" in a or "!!completion" in a or "!!leak" in a or "!!tvleak" in a or "!!cbreg" in a or "!!alloc" in a:
                 verdict.add(f"{self.name}: monitor {([x for x in __import__('re').findall(r'!!([a-z-]+)', a) if x != 'bad-op'] or ['bad-op'])[0]}", f"implementation monitor fired: {a}",
                             dict(stream=self.name, case=l, impl=a, model=b), found_input=True)
             if a != b:
